@@ -158,21 +158,34 @@ def execute(ctx):
             data = (pk.header,) + tuple(pk.data)
             orig_check(pk)
             after = set(cf._answer_patterns.keys())
-            cands = [p for p in before if len(p) <= len(data) and p == data[:len(p)]]
-            want = max(cands, key=len) if cands else None
+            def match(p):
+                return len(p) <= len(data) and p == data[:len(p)]
             removed = before - after
+            stable = before & after            # present before and after: not touched by concurrent senders
             torn = state.get('closing', 0) != 0 or cf.link is None
-            if torn:
-                pass
-            elif want is None:
-                if removed:
-                    ctx.violation('3', 'pattern-removed-without-match', 'packet %r removed %r' % (data, removed))
+            want = None
+            if not torn:
+                if len(removed) > 1:
+                    ctx.violation('3', 'several-patterns-cancelled', 'packet %r removed %r' % (data, sorted(removed)))
+                elif len(removed) == 1:
+                    r = next(iter(removed))
+                    want = r
+                    if not match(r):
+                        ctx.violation('3', 'pattern-removed-without-match', 'packet %r removed %r' % (data, r))
+                    longer = [p for p in stable if match(p) and len(p) > len(r)]
+                    if longer:
+                        ctx.violation('3', 'wrong-pattern-cancelled', 'packet %r: removed %r although the longer pending '
+                                      'pattern %r matches' % (data, r, longer[0]))
+                    if [p for p in before if match(p)][1:]:
+                        ctx.probe('reply matched several pending patterns')
+                else:
+                    left = [p for p in stable if match(p)]
+                    if left:
+                        ctx.violation('3', 'answered-pattern-not-cancelled', 'packet %r matches pending %r but nothing was '
+                                      'cancelled' % (data, left))
             else:
-                if removed != {want}:
-                    ctx.violation('3', 'wrong-pattern-cancelled', 'packet %r: pending %r, longest matching prefix %r, '
-                                  'library removed %r' % (data, sorted(before), want, sorted(removed)))
-                if len(cands) > 1:
-                    ctx.probe('reply matched several pending patterns')
+                cands = [p for p in before if match(p)]
+                want = max(cands, key=len) if cands else None
             if want is not None and want in model:
                 ev.append(('answered', sim.now, model[want]['pk'], want))
                 del model[want]
